@@ -169,9 +169,17 @@ func checkSigCase(c SigCase, o *vt.Obs) error {
 		}
 	}
 	// documented: a signature that is not 64 bytes long is rejected
-	for _, alt := range [][]byte{sig[:63], append(bytes.Clone(sig), 0), sig[1:], {}, nil} {
+	pad := func(k int) []byte { // k zero bytes in front of each half: the same two numbers in a longer encoding
+		z := make([]byte, k)
+		return append(append(append(bytes.Clone(z), sig[:32]...), z...), sig[32:]...)
+	}
+	alts := [][]byte{sig[:63], append(bytes.Clone(sig), 0), sig[1:], {}, nil, pad(1), pad(2), pad(32), append(bytes.Clone(sig), sig...)}
+	if sig[0] == 0 && sig[32] == 0 { // the same two numbers in a shorter encoding
+		alts = append(alts, append(bytes.Clone(sig[1:32]), sig[33:]...))
+	}
+	for _, alt := range alts {
 		if pub.Verify(alt, digest[:]) {
-			return fmt.Errorf("signature of length %d verifies", len(alt))
+			return fmt.Errorf("signature of length %d verifies (%x; the 64-byte signature is %x)", len(alt), alt, sig)
 		}
 	}
 	if sig[0] == 0 || sig[32] == 0 {
